@@ -237,6 +237,7 @@ def foster_place(nodes):
 @contract(TB + ".getTableMisnestedNodePosition")
 class GetTableMisnestedNodePosition:
     props = ("C01", "C04")
+    modular = False
 
     def inputs(S):
         nodes = fp_stack(S)
@@ -259,3 +260,49 @@ class GetTableMisnestedNodePosition:
         if want[1] is None:
             return got_before is None
         return same_object(got_before, want[1])
+
+
+def recording_node(S, label, log, ns=None, name=None):
+    n = node(S, label, ns, name)
+    n.methods = {
+        "insertText": lambda I, a, k: log.items.append(("insertText", n, a[0], a[1] if len(a) > 1 else k.get("insertBefore"))),
+        "appendChild": lambda I, a, k: log.items.append(("appendChild", n, a[0])),
+        "insertBefore": lambda I, a, k: log.items.append(("insertBefore", n, a[0], a[1])),
+    }
+    return n
+
+
+TABLE_MODE_NAMES = ("table", "tbody", "tfoot", "thead", "tr")
+
+
+@contract(TB + ".insertText")
+class BuilderInsertText:
+    props = ("C01", "C04")
+    modular = False
+
+    def inputs(S):
+        log = S.list([])
+        k = S.choice(DEPTH + 1)
+        nodes = [recording_node(S, "html", log, T.HTML, "html")] + [recording_node(S, "e%d" % i, log) for i in range(k)]
+        for i, n in enumerate(nodes):
+            n.fields["parent"] = S.one_of(None, lambda i=i: recording_node(S, "parent%d" % i, log))
+        tb = builder(S)
+        tb.fields["openElements"] = S.list(nodes)
+        tb.fields.pop("insertFromTable", None)
+        tb.fields["_insertFromTable"] = S.bool("insertFromTable")
+        return dict(self=tb, nodes=S.list(nodes), log=log, data=S.str("data"), parent=None)
+
+    @ensures("C01", "C04")
+    @bounded(SCOPE_BOUND + "; each element with or without a parent node")
+    def text_goes_to_the_current_node_or_is_foster_parented(self, nodes, log, data):
+        # foster parenting applies when it is enabled and the current node is a table, tbody, tfoot, thead or tr element
+        if len(log) != 1 or log[0][0] != "insertText" or log[0][2] != data:
+            return False
+        op = log[0]
+        top = nodes[len(nodes) - 1]
+        if self._insertFromTable and top.name in TABLE_MODE_NAMES:
+            want = foster_place(nodes)
+            if not same_object(op[1], want[0]):
+                return False
+            return op[3] is None if want[1] is None else same_object(op[3], want[1])
+        return same_object(op[1], top) and op[3] is None
